@@ -312,6 +312,7 @@ Collect(t, keep, nid) ==
     IF keep
     THEN Ok([t EXCEPT !.nm = [c \in V |-> t.nm[c]], !.ty = [c \in V |-> t.ty[c]], !.fk = [c \in V |-> "e"],
                       !.rows = [r \in DOMAIN t.rows |-> [c \in V |-> t.rows[r][c]]],
+                      !.part = SelectSeq(t.part, LAMBDA c : c \in V),
                       !.root = t.root \cup {1000 + nid}])
     ELSE
     LET new(i) == nid + i - 1
@@ -349,6 +350,7 @@ Conjuncts(e) == IF e.k = "fn" /\ e.op = "and" THEN Conjuncts(e.a[1]) \o Conjunct
 Join(l, r, on, how, usfx) ==
     IF l.part # <<>> \/ r.part # <<>> THEN Fail("ValueError")
     ELSE IF l.root \cap r.root # {} THEN Fail("ValueError")
+    ELSE IF Scope(l) \cap Scope(r) # {} THEN Fail("UNDEF")   \* e.g. a table joined with one that carries its transferred references
     ELSE
     LET ln == VisNames(l)
         rn == VisNames(r)
@@ -378,12 +380,16 @@ Join(l, r, on, how, usfx) ==
         rOnNames == {r.nm[c] : c \in VisSet(r) \cap onIds}
         onlyJoinClash == ((rn \ rOnNames) \cap ln) = {}
         needInt == usfx = "" /\ both # {} /\ \E n \in rn : Concat(n, sfxAuto) \in ln
+        \* "If this still does not resolve all name collisions, additionally an integer is appended"
+        kInt == CHOOSE k \in 1..20 : (\A n \in rn : Concat(n, Concat(sfxAuto, Concat("_", ToString(k)))) \notin ln)
+                                     /\ \A j \in 1..(k - 1) : \E n \in rn : Concat(n, Concat(sfxAuto, Concat("_", ToString(j)))) \in ln
+        sfxEff == IF needInt THEN Concat(sfxAuto, Concat("_", ToString(kInt))) ELSE sfxAuto
         newName(c) ==
             IF c \notin VisSet(r) THEN r.nm[c]
             ELSE IF usfx # "" THEN Concat(r.nm[c], usfx)
             ELSE IF both = {} THEN r.nm[c]
-            ELSE IF onlyJoinClash THEN (IF r.nm[c] \in ln THEN Concat(r.nm[c], sfxAuto) ELSE r.nm[c])
-            ELSE Concat(r.nm[c], sfxAuto)
+            ELSE IF onlyJoinClash THEN (IF r.nm[c] \in ln THEN Concat(r.nm[c], sfxEff) ELSE r.nm[c])
+            ELSE Concat(r.nm[c], sfxEff)
         conj == Flat([i \in DOMAIN es |-> Conjuncts(es[i])])
         allEq == \A i \in DOMAIN conj : conj[i].k = "fn" /\ conj[i].op = "eq"
     IN
@@ -451,6 +457,24 @@ Union(l, r, distinct) ==
             pcls |-> AllOnes(Len(rows)), scls |-> AllOnes(Len(rows)),
             pdef |-> l.pdef /\ r.pdef, sdef |-> l.sdef /\ r.sdef,
             name |-> l.name, root |-> l.root \cup r.root, loose |-> FALSE ])
+
+---------------------------------------------------------------------------
+(* transfer_col_references(table, ref_source): the data of `table` under the *)
+(* column identities of the equally named visible columns of `ref_source`   *)
+Transfer(t, s) ==
+    IF ~(VisNames(t) \subseteq VisNames(s)) THEN Fail("ValueError")
+    ELSE
+    LET V == VisSet(t)
+        new(c) == ByName(s)[t.nm[c]]
+        newset == {new(c) : c \in V}
+        inv(d) == CHOOSE c \in V : new(c) = d
+    IN Ok([t EXCEPT
+            !.vis  = [i \in DOMAIN t.vis |-> new(t.vis[i])],
+            !.nm   = [d \in newset |-> t.nm[inv(d)]],
+            !.ty   = [d \in newset |-> t.ty[inv(d)]],
+            !.fk   = [d \in newset |-> t.fk[inv(d)]],
+            !.rows = [r \in DOMAIN t.rows |-> [d \in newset |-> t.rows[r][inv(d)]]],
+            !.part = [i \in DOMAIN t.part |-> new(t.part[i])] ])
 
 ---------------------------------------------------------------------------
 (* observation of a table: what export / columns() / grouping show *)
